@@ -106,6 +106,17 @@ COMMAND_TIMEOUT = 120
 
 ####################################################################
 #
+def _one_line(text: object) -> str:
+    """
+    The human readable text of a tagged or untagged status response must not
+    contain a line break (it may echo a mailbox name the client sent as a
+    literal, or the text of an exception.)
+    """
+    return str(text).replace("\r", " ").replace("\n", " ")
+
+
+####################################################################
+#
 def _quote(value: str) -> str:
     """
     A mailbox name as an IMAP `string` for use in a response line that is
@@ -283,7 +294,7 @@ class BaseClientHandler:
             )
             if self.server and imap_command.command:
                 self.server.num_failed_commands[imap_command.command] += 1
-            result = f"{imap_command.tag} NO {e}\r\n"
+            result = f"{imap_command.tag} NO {_one_line(e)}\r\n"
             await self.client.push(result)
             return
         except Bad as e:
@@ -292,7 +303,7 @@ class BaseClientHandler:
             )
             if self.server and imap_command.command:
                 self.server.num_failed_commands[imap_command.command] += 1
-            result = f"{imap_command.tag} BAD {e}\r\n"
+            result = f"{imap_command.tag} BAD {_one_line(e)}\r\n"
             await self.client.push(result)
             return
         except TimeoutError:
@@ -335,7 +346,7 @@ class BaseClientHandler:
 
             if self.server and imap_command.command:
                 self.server.num_failed_commands[imap_command.command] += 1
-            result = f"{imap_command.tag} BAD Unhandled exception: {e}"
+            result = f"{imap_command.tag} BAD Unhandled exception: {_one_line(e)}"
             try:
                 await self.client.push(result.strip() + "\r\n")
             except Exception:
